@@ -30,7 +30,7 @@ type RR struct {
 
 // Inj is an action of the environment.
 type Inj struct {
-	Kind    string `json:"k"` // strobe | invalidate | stop | purge
+	Kind    string `json:"k"` // strobe | invalidate | stop | purge | flush (RerunImmediately)
 	Target  int    `json:"t"` // slot or rerunner
 	DelayUs int    `json:"delay_us"`
 }
@@ -134,8 +134,10 @@ func genInj(r *vh.Rng, c *Case, stopPct int) Inj {
 		return Inj{Kind: "invalidate", Target: r.Intn(c.Slots), DelayUs: r.Intn(400)}
 	case k < 75+stopPct:
 		return Inj{Kind: "stop", Target: r.Intn(len(c.RRs)), DelayUs: r.Intn(400)}
-	default:
+	case k < 94:
 		return Inj{Kind: "purge", Target: r.Intn(len(c.RRs)), DelayUs: r.Intn(400)}
+	default:
+		return Inj{Kind: "flush", Target: r.Intn(len(c.RRs)), DelayUs: r.Intn(400)}
 	}
 }
 
@@ -152,7 +154,7 @@ func Gen(r *vh.Rng, flavour string) Case {
 		maxDepth = 1 + r.Intn(3)
 	}
 	for i := 0; i < nr; i++ {
-		c.RRs = append(c.RRs, RR{Prog: genProg(r, c.Slots, maxDepth, nil, true), Spawn: r.Chance(60), IntervalUs: r.Intn(3) * 100})
+		c.RRs = append(c.RRs, RR{Prog: genProg(r, c.Slots, maxDepth, nil, true), Spawn: r.Chance(60), IntervalUs: []int{0, 100, 200, 2000}[r.Intn(4)]})
 	}
 	stopPct := 8
 	if flavour == "C04" {
@@ -201,6 +203,33 @@ func coqOps(p []Op) string {
 		}
 	}
 	return "[" + strings.Join(xs, "; ") + "]"
+}
+
+// sharedSlots counts the slots that at least two rerunners depend on (shared resources between rerunners).
+func (c *Case) sharedSlots() int {
+	users := map[int]map[int]bool{}
+	var walk func([]Op, int)
+	walk = func(p []Op, ri int) {
+		for _, o := range p {
+			if o.Kind == "dep" {
+				if users[o.Slot] == nil {
+					users[o.Slot] = map[int]bool{}
+				}
+				users[o.Slot][ri] = true
+			}
+			walk(o.Body, ri)
+		}
+	}
+	for i, r := range c.RRs {
+		walk(r.Prog, i)
+	}
+	n := 0
+	for _, u := range users {
+		if len(u) > 1 {
+			n++
+		}
+	}
+	return n
 }
 
 func (c *Case) shape() string {
